@@ -175,6 +175,21 @@ class Ctx:
                 base = e
         return base + ptr, suffix, isref
 
+    def rec_of(self, tstr):
+        """record named by a (possibly sugared / cv-qualified / pointer) type string, or None"""
+        t = tstr.strip()
+        t = re.sub(r'[*&\s]+$', '', t)
+        c = canon_type(t)
+        r = self.ast.rec_by_qname.get(c)
+        if r is not None:
+            return r
+        if c in BUILTIN or not c:
+            return None
+        al = self.resolve_alias(c)
+        if al is not None:
+            return self.rec_of(al)
+        return self.fuzzy_rec(c)
+
     def norm_type_name(self, c):
         """canonical name with alias-typed template arguments resolved (clang leaves sugar inside
         the argument lists of not fully desugared type strings)"""
@@ -928,7 +943,7 @@ class FnLower:
         e = self.expr(sub)
         st = type_str(sub['type'])
         is_ptr = st.rstrip().endswith('*')
-        src = self.ast.rec_of_type(st.rstrip().rstrip('*'))
+        src = self.ctx.rec_of(st.rstrip().rstrip('*'))
         if src is None:
             raise Unsupported('derived-to-base from unknown type %s' % st)
         cur = src
@@ -952,9 +967,20 @@ class FnLower:
         return '%s%s' % (self._lv(e), path)
 
     def _find_base(self, cur, target):
+        t = self.ctx.norm_type_name(canon_type(target))
+        hits = []
         for i, b in enumerate(cur.bases):
-            if canon_type(b) == canon_type(target):
-                return i
+            bn = self.ctx.norm_type_name(canon_type(b))
+            if bn == t or bn.endswith('::' + t):
+                hits.append(i)
+        if len(hits) == 1:
+            return hits[0]
+        if not hits:
+            # the path entry may be printed with sugar we cannot normalise: accept a unique base with the same template name
+            tn = t.split('<')[0].split('::')[-1]
+            hits = [i for i, b in enumerate(cur.bases) if b.split('<')[0].split('::')[-1] == tn]
+            if len(hits) == 1:
+                return hits[0]
         return None
 
     @staticmethod
@@ -1011,7 +1037,7 @@ class FnLower:
     e_CompoundAssignOperator = e_BinaryOperator
 
     def _is_class(self, t):
-        return self.ast.rec_of_type(type_str(t)) is not None
+        return self.ctx.rec_of(type_str(t)) is not None
 
     def e_UnaryOperator(self, n):
         op = n['opcode']
@@ -1172,7 +1198,7 @@ class FnLower:
         """object expression of a ->* call: clang does not insert the derived-to-base cast; add it"""
         owner = self.ast.fn_owner.get(f['id'])
         st = type_str(objnode['type']).rstrip()
-        src = self.ast.rec_of_type(st.rstrip('*').strip())
+        src = self.ctx.rec_of(st.rstrip('*').strip())
         if owner is None or src is None or src.id == owner.id:
             return o
         path = self._path_to_base(src, owner)
@@ -1231,7 +1257,7 @@ class FnLower:
                 if br:
                     chk(br)
             for f in x.fields:
-                fr = self.ast.rec_of_type(re.sub(r'\[[^\]]*\]', '', type_str(f['type'])))
+                fr = self.ctx.rec_of(re.sub(r'\[[^\]]*\]', '', type_str(f['type'])))
                 if fr:
                     chk(fr)
         chk(r)
@@ -1275,7 +1301,7 @@ class FnLower:
     def _ctor_of(self, n):
         # CXXConstructExpr does not carry the constructor id in clang 14's JSON; resolve by the
         # printed constructor type among the record's constructors
-        r = self.ast.rec_of_type(type_str(n['type']))
+        r = self.ctx.rec_of(type_str(n['type']))
         if r is None:
             return None, None
         want = n.get('ctorType', {}).get('qualType')
@@ -1316,7 +1342,7 @@ class FnLower:
                 if br:
                     chk(br)
             for f in x.fields:
-                fr = self.ast.rec_of_type(re.sub(r'\[[^\]]*\]', '', type_str(f['type'])).rstrip('&').strip())
+                fr = self.ctx.rec_of(re.sub(r'\[[^\]]*\]', '', type_str(f['type'])).rstrip('&').strip())
                 if fr and not type_str(f['type']).rstrip().endswith('&'):
                     chk(fr)
         chk(r)
@@ -1377,7 +1403,7 @@ class FnLower:
 
     def e_InitListExpr(self, n):
         inner = n.get('inner', []) or []
-        r = self.ast.rec_of_type(type_str(n['type']))
+        r = self.ctx.rec_of(type_str(n['type']))
         if r is None:
             if len(inner) == 1:
                 return self.expr(inner[0])
@@ -1454,7 +1480,7 @@ class FnLower:
             return stmts[-1].rstrip(';')
         if init['kind'] == 'InitListExpr':
             el = init.get('inner', []) or []
-            r = self.ast.rec_of_type(type_str(init['type']))
+            r = self.ctx.rec_of(type_str(init['type']))
             if r is None:
                 if len(el) == 0:
                     return '(%s = 0)' % tgt
@@ -1543,7 +1569,7 @@ class FnLower:
             else:
                 out += ind + '%s *%s = %s;%s\n' % (base, nm, addr(e), self.srcmark(v))
             return out
-        r = self.ast.rec_of_type(ts)
+        r = self.ctx.rec_of(ts)
         if r is not None:
             out_init = None
             stmts = []
@@ -1811,7 +1837,17 @@ class FnLower:
         if e is None:
             return ''
         if e['kind'] == 'CXXInheritedCtorInitExpr':
-            raise Unsupported('inherited constructor initialiser')
+            # `using Base::Base;`: the implicit constructor forwards its parameters to the base constructor
+            # of the same signature
+            br = self.ctx.rec_of(type_str(e['type']))
+            want = self.fn['type']['qualType']
+            hits = [m for m in (br.methods if br else []) if m['kind'] == 'CXXConstructorDecl' and m['type']['qualType'] == want]
+            if not hits:
+                raise Unsupported('inherited constructor %s not found in base' % want)
+            bc = self.ast.definition_of(hits[0])
+            cname = self.ctx.want_fn(bc)
+            args = [self.names.get(p['id'], p.get('name')) for p in self.ast.params(self.fn)]
+            return ind + '%s(%s);\n' % (cname, ', '.join(['&' + tgt] + args))
         core = e
         while core['kind'] in ('ExprWithCleanups', 'CXXBindTemporaryExpr'):
             core = core['inner'][0]
@@ -1845,7 +1881,7 @@ class FnLower:
             stmts = self.construct_into(tgt, core)
             return self.flush(ind) + ''.join(ind + s + '\n' for s in stmts)
         if core['kind'] == 'InitListExpr':
-            r = self.ast.rec_of_type(re.sub(r'\[[^\]]*\]', '', ts))
+            r = self.ctx.rec_of(re.sub(r'\[[^\]]*\]', '', ts))
             inner = core.get('inner', []) or []
             if arr:
                 # array member initialised with {}: value-initialise every element
@@ -1866,7 +1902,7 @@ class FnLower:
         """`T arr[N] {}`: every element value-initialised (class elements: default-constructed)"""
         ts = type_str(fd['type'])
         et = re.sub(r'\[[^\]]*\]', '', ts).strip()
-        r = self.ast.rec_of_type(et)
+        r = self.ctx.rec_of(et)
         filler = core.get('array_filler')
         elems = [x for x in (core.get('inner', []) or []) if 'kind' in x]
         p = self.ast.parent.get(fd['id'])
